@@ -17,6 +17,7 @@ import (
 	"sort"
 	"strconv"
 	"strings"
+	"sync"
 	. "verifharness/hlib"
 
 	"github.com/itchyny/gojq"
@@ -30,6 +31,8 @@ func main() {
 	Register("run", runRun)
 	Register("yaml", runYAML)
 	Register("yamlcase", runYAMLCase)
+	Register("retain", runRetain)
+	Register("concurrent", runConcurrent)
 	Main()
 }
 
@@ -209,6 +212,83 @@ func readsBack(c *Ctx, what string, v any, out []byte, rng *Rng) {
 	}
 }
 
+// ---------- retained results ----------
+// The property is about the bytes a caller holds, for as long as it holds them: the slices returned by
+// gojq.Marshal (the slices themselves, NOT copies) and the strings returned by tojson/@json/tostring are kept
+// for a window of the last 64 calls together with a copy taken at return time, and after every further call
+// every kept result must still equal its copy.
+type keptResult struct {
+	what  string // canonical description of the call that produced it
+	live  []byte // the slice as returned (aliases whatever the implementation returned)
+	lives string // or the string as returned
+	isStr bool
+	copy  []byte
+}
+
+var (
+	retained     []keptResult
+	retainedBad  int
+	retainChecks int
+)
+
+const retainWindow = 64
+
+func checkRetained(c *Ctx, after string) {
+	for i := 0; i < len(retained); i++ {
+		k := retained[i]
+		var now []byte
+		if k.isStr {
+			now = []byte(k.lives)
+		} else {
+			now = k.live
+		}
+		retainChecks++
+		if !bytes.Equal(now, k.copy) {
+			if retainedBad < 3 {
+				c.Violation("retained result of %s :: returned %s, but after the later call %s the kept result reads %s", k.what, Hexs(k.copy), after, Hexs(now))
+			}
+			retainedBad++
+			retained = append(retained[:i], retained[i+1:]...)
+			i--
+		}
+	}
+}
+
+func retain(k keptResult) {
+	if len(retained) >= retainWindow {
+		retained = retained[1:]
+	}
+	retained = append(retained, k)
+}
+
+// marshal is gojq.Marshal with the retained-result oracle around it
+func marshal(c *Ctx, v any) ([]byte, error) {
+	bs, err := gojq.Marshal(v)
+	what := "Marshal " + shortSexp(v)
+	checkRetained(c, what)
+	retain(keptResult{what: what, live: bs, copy: bytes.Clone(bs)})
+	return bs, err
+}
+
+func retainString(c *Ctx, mode string, v any, s string) {
+	what := mode + " " + shortSexp(v)
+	checkRetained(c, what)
+	retain(keptResult{what: what, lives: s, isStr: true, copy: []byte(strings.Clone(s))})
+}
+
+func retainStats(c *Ctx) {
+	c.Stats["retain_checks"] = retainChecks
+	c.Stats["retain_bad"] = retainedBad
+}
+
+func shortSexp(v any) string {
+	s := SexpVal(v)
+	if len(s) > 300 {
+		return fmt.Sprintf("%s...[%d chars]", s[:300], len(s))
+	}
+	return s
+}
+
 // ---------- the implementation's entry points ----------
 
 func compile(src string) *gojq.Code {
@@ -243,7 +323,7 @@ func run1(code *gojq.Code, in any) any {
 func emitLib(c *Ctx, v any, rng *Rng, all bool) {
 	orc := oracle(v)
 	sv := sexp(v, rng)
-	bs, err := gojq.Marshal(v)
+	bs, err := marshal(c, v)
 	if err != nil {
 		c.Violation("Marshal %s :: error %v", SexpVal(v), err)
 	}
@@ -265,6 +345,7 @@ func emitLib(c *Ctx, v any, rng *Rng, all bool) {
 		}
 		c.Emit("(lib %s %s %s %s)", m.name, sv, Hexs([]byte(s)), orc)
 		c.Count("lib:" + m.name)
+		retainString(c, m.name, v, s)
 		if _, isStr := v.(string); !isStr || m.name == "tojson" || m.name == "atjson" {
 			readsBack(c, m.name, v, []byte(s), rng)
 		}
@@ -330,7 +411,7 @@ func emitCli(c *Ctx, v any, o cliOpt, rng *Rng) {
 	c.Count("cli")
 	readsBack(c, fmt.Sprintf("cli encoder %+v", o), v, buf.Bytes(), rng)
 	// all modes agree: without colour and insignificant whitespace the bytes are Marshal's
-	lib, _ := gojq.Marshal(v)
+	lib, _ := marshal(c, v)
 	if got := stripWS(sgr.ReplaceAll(buf.Bytes(), nil)); !bytes.Equal(got, lib) {
 		c.Violation("cli encoder %+v %s :: stripped output %s differs from Marshal %s", o, SexpVal(v), Hexs(got), Hexs(lib))
 	}
@@ -550,6 +631,7 @@ func nested(depth int, obj bool, leaf any) any {
 // ---------- streams ----------
 
 func runStrings(c *Ctx) {
+	defer retainStats(c)
 	rng := c.Rng
 	alpha := alphabet()
 	var strs []string
@@ -616,6 +698,7 @@ func runStrings(c *Ctx) {
 }
 
 func runFloats(c *Ctx) {
+	defer retainStats(c)
 	rng := c.Rng
 	c.Emit("(consts %d %d %d)", math.Float64bits(1e-6), math.Float64bits(1e21), math.Float64bits(math.MaxFloat64))
 	fs := floatClasses(rng, c.N)
@@ -626,7 +709,7 @@ func runFloats(c *Ctx) {
 			emitCli(c, []any{f, map[string]any{"x": f}}, cliOpt{false, 2, false, "default"}, rng)
 		}
 		// property oracle on the implementation: the printed float parses back to the same bits
-		bs, _ := gojq.Marshal(f)
+		bs, _ := marshal(c, f)
 		cls := "finite"
 		switch {
 		case math.IsNaN(f):
@@ -678,6 +761,7 @@ func optionCombos(r *Rng, all bool) []cliOpt {
 }
 
 func runContainers(c *Ctx) {
+	defer retainStats(c)
 	rng := c.Rng
 	var vals []any
 	// fixed shapes
@@ -762,6 +846,7 @@ func runContainers(c *Ctx) {
 
 // whole command: flags -> createMarshaler -> printValues
 func runRun(c *Ctx) {
+	defer retainStats(c)
 	rng := c.Rng
 	type fl struct {
 		args  []string
@@ -801,7 +886,7 @@ func runRun(c *Ctx) {
 		}
 	}()
 	for i, v := range vals {
-		in, _ := gojq.Marshal(v)
+		in, _ := marshal(c, v)
 		// what the command's input decoder makes of the text
 		dec := json.NewDecoder(bytes.NewReader(in))
 		dec.UseNumber()
@@ -998,6 +1083,122 @@ func yamlWitness(v any, ind []string) (any, []string, bool) {
 }
 
 // yamlcase <indent|default> <json>: replays one canonical YAML case on the implementation
+// retain: calls of very different result sizes (shorter, longer, much longer than the previous ones) through
+// Marshal, tojson, @json, tostring; every kept result is verified after every call
+func runRetain(c *Ctx) {
+	rng := c.Rng
+	sized := func(n int) any {
+		a := make([]any, n)
+		for i := range a {
+			a[i] = "element " + strconv.Itoa(i)
+		}
+		return a
+	}
+	vals := []any{[]any{"a longer array", 1, 2, 3}, "x", nil, []any{"second"}, sized(3), "a", sized(40), 1, sized(2), sized(700), "tiny", sized(5),
+		map[string]any{"k": sized(20)}, 0.5, sized(5000), "after the big one", sized(1), map[string]any{"a": "b"}}
+	for i := 0; i < c.N; i++ {
+		switch rng.Intn(4) {
+		case 0:
+			vals = append(vals, sized(rng.Intn(8)))
+		case 1:
+			vals = append(vals, sized(50+rng.Intn(2000)))
+		case 2:
+			vals = append(vals, randString(rng, 1+rng.Intn(300)))
+		default:
+			vals = append(vals, genValue(rng, genOpts{maxDepth: 3, maxWidth: 4, strLen: 20}, 0))
+		}
+	}
+	for i, v := range vals {
+		if _, err := marshal(c, v); err != nil {
+			c.Violation("Marshal %s :: error %v", shortSexp(v), err)
+		}
+		c.Nlines++
+		if i%2 == 0 {
+			for _, m := range []struct {
+				name string
+				code *gojq.Code
+			}{{"tojson", cToJSON}, {"atjson", cAtJSON}, {"tostring", cToString}} {
+				if s, ok := run1(m.code, v).(string); ok {
+					retainString(c, m.name, v, s)
+					c.Nlines++
+				}
+			}
+		}
+	}
+	c.Stats["retain_checks"] = retainChecks
+	c.Stats["retain_bad"] = retainedBad
+}
+
+// concurrent: 8 goroutines marshal distinct values and verify their own results, immediately and after
+// further calls (built with -race in the thorough tier)
+func runConcurrent(c *Ctx) {
+	const workers = 8
+	rounds := 200 + c.N
+	type res struct{ msgs []string }
+	out := make([]res, workers)
+	var wg sync.WaitGroup
+	for w := 0; w < workers; w++ {
+		wg.Add(1)
+		go func(w int) {
+			defer wg.Done()
+			var vals []any
+			var want [][]byte
+			for k := 0; k < 6; k++ {
+				a := make([]any, 1+k*k*7)
+				for i := range a {
+					a[i] = fmt.Sprintf("worker %d item %d of size class %d", w, i, k)
+				}
+				var v any = a
+				if k%2 == 1 {
+					v = map[string]any{fmt.Sprintf("w%d", w): a}
+				}
+				vals = append(vals, v)
+				// expected text through the string builder path (tojson), computed by this goroutine
+				s, _ := run1(compile("tojson"), v).(string)
+				want = append(want, []byte(s))
+			}
+			var kept [][]byte
+			var keptWant [][]byte
+			for r := 0; r < rounds; r++ {
+				i := (r*7 + w) % len(vals)
+				bs, _ := gojq.Marshal(vals[i])
+				if !bytes.Equal(bs, want[i]) && len(out[w].msgs) < 2 {
+					out[w].msgs = append(out[w].msgs, fmt.Sprintf("concurrent Marshal worker=%d value-class=%d :: result read right after the call is %s..., want %s...", w, i, clip(bs), clip(want[i])))
+				}
+				kept = append(kept, bs)
+				keptWant = append(keptWant, want[i])
+				if len(kept) > 16 {
+					kept, keptWant = kept[1:], keptWant[1:]
+				}
+				for j := range kept {
+					if !bytes.Equal(kept[j], keptWant[j]) && len(out[w].msgs) < 2 {
+						out[w].msgs = append(out[w].msgs, fmt.Sprintf("concurrent Marshal worker=%d :: a kept result changed to %s..., want %s...", w, clip(kept[j]), clip(keptWant[j])))
+					}
+				}
+			}
+		}(w)
+	}
+	wg.Wait()
+	n := 0
+	for _, r := range out {
+		for _, m := range r.msgs {
+			if n < 3 {
+				c.Violation("%s", m)
+			}
+			n++
+		}
+	}
+	c.Nlines += workers * rounds
+	c.Stats["concurrent_bad"] = n
+}
+
+func clip(b []byte) string {
+	if len(b) > 40 {
+		b = b[:40]
+	}
+	return Hexs(b)
+}
+
 func runYAMLCase(c *Ctx) {
 	if len(c.Args) != 2 {
 		c.Violation("yamlcase :: usage: yamlcase <indent|default> <json>")
